@@ -35,6 +35,16 @@
 //   DataReader::from_simple_data_reader) on a TopicCache of its own, without registering it with the
 //   event loop and discovery (about 0.25 ms per case instead of 6 ms). Nothing is received over the
 //   network; receive timestamps lie 100 s in the past, 10 ms apart.
+// no_key forms (tests xc_take_nokey_*, one per form so that they can be told apart): the same oracle
+//   for no_key::SimpleDataReader::try_take_one, its async stream, and no_key::DataReader take(any),
+//   take_next_sample, read_next_sample, iterator, into_iterator, async_sample_stream,
+//   async_bare_sample_stream, built over with_key::SimpleDataReader<NoKeyWrapper<D>, DAWrapper<DA>> on
+//   a private TopicCache. A no_key reader has no sample form for a dispose / unregister, so those are
+//   changes that cannot become a sample: skipped exactly once, and "nothing" (None / empty / Pending)
+//   may be answered only when no deliverable value is left behind the read pointers   [take.once.none]
+//   Bound: n <= 3 changes over 6 kinds (the 5 above + DisposeByKeyHash(unregister) with the hash of the
+//   unit key, known or not depending on what was decoded before), all splits / timestamp orders /
+//   one or two portions, RELIABLE and BEST_EFFORT.
 // Not reached: changes arriving while a call is running (C13), the waker protocol of the streams,
 //   a DisposeByKeyHash whose hash becomes known only through a later change.
 #[cfg(test)]
@@ -55,6 +65,10 @@ mod verif_xc_take_path {
   use crate::{
     dds::{
       ddsdata::DDSData,
+      no_key::{
+        self as nk,
+        wrappers::{DAWrapper, NoKeyWrapper},
+      },
       participant::DomainParticipant,
       pubsub::Subscriber,
       sampleinfo::SampleInfo,
@@ -85,6 +99,7 @@ mod verif_xc_take_path {
     UnknownRep,
     DisposeUnseenHash,
     DisposeKey,
+    UnregisterUnitHash, // no_key cases only: DisposeByKeyHash(NotAliveUnregistered, hash of the unit key)
   }
   use Kind::*;
 
@@ -112,6 +127,26 @@ mod verif_xc_take_path {
     SimpleStream,  // SimpleDataReader::as_async_stream() polled with a noop waker
     DrStream,      // DataReader::async_sample_stream()
     BareStream,    // DataReader::async_bare_sample_stream()
+    // no_key
+    NkSimpleTakeOne, // no_key::SimpleDataReader::try_take_one()
+    NkSimpleStream,  // no_key::SimpleDataReader::as_async_stream()
+    NkTake,          // no_key::DataReader::take(MAX, any)
+    NkTakeNext,      // take_next_sample()
+    NkReadNext,      // read_next_sample()
+    NkIter,          // iterator()
+    NkIntoIter,      // into_iterator()
+    NkDrStream,      // async_sample_stream()
+    NkBareStream,    // async_bare_sample_stream()
+  }
+  impl Form {
+    fn no_key(self) -> bool {
+      use Form::*;
+      matches!(self, NkSimpleTakeOne | NkSimpleStream | NkTake | NkTakeNext | NkReadNext | NkIter | NkIntoIter | NkDrStream | NkBareStream)
+    }
+    fn with_info(self) -> bool {
+      use Form::*;
+      !matches!(self, IntoIter | Iter | BareStream | NkIter | NkIntoIter | NkBareStream)
+    }
   }
   const ALL_FORMS: [Form; 9] = [
     Form::Take,
@@ -194,6 +229,7 @@ mod verif_xc_take_path {
       Undecodable => DDSData::new(payload(RepresentationIdentifier::CDR_LE, vec![1, 2, 3])),
       UnknownRep => DDSData::new(payload(RepresentationIdentifier::XML, good)),
       DisposeUnseenHash => DDSData::new_disposed_by_key_hash(ChangeKind::NotAliveDisposed, UNSEEN.hash_key(false)),
+      UnregisterUnitHash => DDSData::new_disposed_by_key_hash(ChangeKind::NotAliveUnregistered, ().hash_key(false)),
       DisposeKey => DDSData::new_disposed_by_key(ChangeKind::NotAliveDisposed, payload(RepresentationIdentifier::CDR_LE, to_vec::<i64, LittleEndian>(&KEY).unwrap())),
     };
     CacheChange::new(guid(c.w), SequenceNumber::from(c.sn), WriteOptions::default(), data)
@@ -217,6 +253,7 @@ mod verif_xc_take_path {
     _dp: DomainParticipant,
     sub: Subscriber,
     topic: Topic,
+    nk_topic: Topic,
     n_readers: u32,
   }
 
@@ -235,7 +272,8 @@ mod verif_xc_take_path {
       qos.history = Some(policy::History::KeepAll);
       let sub = dp.create_subscriber(&qos).unwrap();
       let topic = dp.create_topic(format!("xc_take_path_{}", tag), "RandomData".to_string(), &qos, TopicKind::WithKey).unwrap();
-      Env { _dp: dp, sub, topic, n_readers: 0 }
+      let nk_topic = dp.create_topic(format!("xc_take_path_nokey_{}", tag), "RandomData".to_string(), &qos, TopicKind::NoKey).unwrap();
+      Env { _dp: dp, sub, topic, nk_topic, n_readers: 0 }
     }
 
     // A real SimpleDataReader / DataReader on a topic cache of its own, built the way
@@ -243,6 +281,18 @@ mod verif_xc_take_path {
     // discovery (thousands of readers per test; nothing is received over the network here, the
     // topic cache is filled by hand). Its Drop tells the participant to remove the (unknown) reader.
     fn make_reader(&mut self, reliable: bool) -> (Arc<Mutex<TopicCache>>, DataReader<RandomData>, Peers) {
+      let topic = self.topic.clone();
+      let (tc, sdr, peers) = self.make_simple::<RandomData, CDRDeserializerAdapter<RandomData>>(reliable, topic);
+      (tc, DataReader::from_simple_data_reader(sdr), peers)
+    }
+
+    // the keyed reader every no_key reader wraps
+    fn make_nk_simple(&mut self, reliable: bool) -> (Arc<Mutex<TopicCache>>, SimpleDataReader<NoKeyWrapper<RandomData>, DAWrapper<CDRDeserializerAdapter<RandomData>>>, Peers) {
+      let topic = self.nk_topic.clone();
+      self.make_simple::<NoKeyWrapper<RandomData>, DAWrapper<CDRDeserializerAdapter<RandomData>>>(reliable, topic)
+    }
+
+    fn make_simple<D: Keyed + 'static, DA: DeserializerAdapter<D>>(&mut self, reliable: bool, topic: Topic) -> (Arc<Mutex<TopicCache>>, SimpleDataReader<D, DA>, Peers) {
       let mut qos = QosPolicies::qos_none();
       qos.history = Some(policy::History::KeepAll);
       qos.reliability = Some(if reliable {
@@ -253,17 +303,17 @@ mod verif_xc_take_path {
       self.n_readers += 1;
       let n = self.n_readers.to_be_bytes();
       let entity_id = EntityId::create_custom_entity_id([n[1], n[2], n[3]], EntityKind::READER_WITH_KEY_USER_DEFINED);
-      let topic_cache = Arc::new(Mutex::new(TopicCache::new(self.topic.name(), self.topic.get_type(), &qos)));
+      let topic_cache = Arc::new(Mutex::new(TopicCache::new(topic.name(), topic.get_type(), &qos)));
       let (notification_sender, notification_receiver) = mio_channel::sync_channel::<()>(4);
       let (status_sender, status_receiver) = sync_status_channel::<DataReaderStatus>(4).unwrap();
       let (reader_command_sender, reader_command_receiver) = mio_channel::sync_channel::<ReaderCommand>(0);
       // nobody listens: the reader's Drop finds the channel disconnected and says nothing to discovery
       let (discovery_command, _) = mio_channel::sync_channel::<DiscoveryCommand>(4);
       let (poll_event_source, poll_event_sender) = mio_source::make_poll_channel().unwrap();
-      let sdr = SimpleDataReader::<RandomData, CDRDeserializerAdapter<RandomData>>::new(
+      let sdr = SimpleDataReader::<D, DA>::new(
         self.sub.clone(),
         entity_id,
-        self.topic.clone(),
+        topic,
         qos,
         notification_receiver,
         topic_cache.clone(),
@@ -280,7 +330,7 @@ mod verif_xc_take_path {
         _reader_command_receiver: reader_command_receiver,
         _poll_event_sender: poll_event_sender,
       };
-      (topic_cache, DataReader::from_simple_data_reader(sdr), peers)
+      (topic_cache, sdr, peers)
     }
   }
 
@@ -288,6 +338,26 @@ mod verif_xc_take_path {
     Dr(DataReader<RandomData>),
     DrStream(DataReaderStream<RandomData>),
     BareStream(BareDataReaderStream<RandomData>),
+    NkSimple(nk::SimpleDataReader<RandomData>),
+    NkDr(nk::DataReader<RandomData>),
+    NkDrStream(nk::DataReaderStream<RandomData>),
+    NkBareStream(nk::BareDataReaderStream<RandomData>),
+  }
+
+  fn widx(g: GUID) -> usize {
+    if g == guid(0) {
+      0
+    } else if g == guid(1) {
+      1
+    } else {
+      99
+    }
+  }
+  fn nk_item(id: Option<(GUID, SequenceNumber)>, d: &RandomData) -> Item {
+    Item::Value { id: id.map(|(g, sn)| (widx(g), i64::from(sn))), a: d.a, b: d.b.clone() }
+  }
+  fn nk_info(i: &SampleInfo) -> Option<(GUID, SequenceNumber)> {
+    Some((i.writer_guid(), i.sample_identity().sequence_number))
   }
 
   fn item_of(info: Option<&SampleInfo>, v: Sample<&RandomData, &i64>) -> Item {
@@ -451,16 +521,147 @@ mod verif_xc_take_path {
         }
         Poll::Pending => false,
       },
+      // ---- no_key forms
+      (Form::NkSimpleTakeOne, Driver::NkSimple(r)) => match guarded(sh, nth, "no_key::SimpleDataReader::try_take_one()", || r.try_take_one()) {
+        Ok(Some(dcc)) => {
+          out.items.push(nk_item(Some((dcc.writer_guid, dcc.sequence_number)), &dcc.sample));
+          true
+        }
+        Ok(None) => false,
+        Err(e) => {
+          out.errs.push(format!("{:?}", e));
+          true
+        }
+      },
+      (Form::NkSimpleStream, Driver::NkSimple(r)) => {
+        let mut stream = Box::pin(r.as_async_stream());
+        match guarded(sh, nth, "no_key SimpleDataReader async stream poll_next()", || stream.as_mut().poll_next(&mut cx)) {
+          Poll::Ready(Some(Ok(dcc))) => {
+            out.items.push(nk_item(Some((dcc.writer_guid, dcc.sequence_number)), &dcc.sample));
+            true
+          }
+          Poll::Ready(Some(Err(e))) => {
+            out.errs.push(format!("{:?}", e));
+            true
+          }
+          Poll::Ready(None) => {
+            out.errs.push("stream ended".to_string());
+            false
+          }
+          Poll::Pending => false,
+        }
+      }
+      (Form::NkTake, Driver::NkDr(r)) => match guarded(sh, nth, "no_key take(MAX, any)", || r.take(usize::MAX, ReadCondition::any())) {
+        Ok(v) => {
+          out.items.extend(v.iter().map(|ds| nk_item(nk_info(ds.sample_info()), ds.value())));
+          !v.is_empty()
+        }
+        Err(e) => {
+          out.errs.push(format!("{:?}", e));
+          true
+        }
+      },
+      (Form::NkTakeNext, Driver::NkDr(r)) => match guarded(sh, nth, "no_key take_next_sample()", || r.take_next_sample()) {
+        Ok(Some(ds)) => {
+          out.items.push(nk_item(nk_info(ds.sample_info()), ds.value()));
+          true
+        }
+        Ok(None) => false,
+        Err(e) => {
+          out.errs.push(format!("{:?}", e));
+          true
+        }
+      },
+      (Form::NkReadNext, Driver::NkDr(r)) => match guarded(sh, nth, "no_key read_next_sample()", || r.read_next_sample().map(|o| o.map(|ds| nk_item(nk_info(ds.sample_info()), ds.value())))) {
+        Ok(Some(it)) => {
+          out.items.push(it);
+          true
+        }
+        Ok(None) => false,
+        Err(e) => {
+          out.errs.push(format!("{:?}", e));
+          true
+        }
+      },
+      (Form::NkIter, Driver::NkDr(r)) => match guarded(sh, nth, "no_key iterator()", || r.iterator().map(|it| it.map(|d| nk_item(None, d)).collect::<Vec<_>>())) {
+        Ok(v) => {
+          let more = !v.is_empty();
+          out.items.extend(v);
+          more
+        }
+        Err(e) => {
+          out.errs.push(format!("{:?}", e));
+          true
+        }
+      },
+      (Form::NkIntoIter, Driver::NkDr(r)) => match guarded(sh, nth, "no_key into_iterator()", || r.into_iterator().map(|it| it.map(|d| nk_item(None, &d)).collect::<Vec<_>>())) {
+        Ok(v) => {
+          let more = !v.is_empty();
+          out.items.extend(v);
+          more
+        }
+        Err(e) => {
+          out.errs.push(format!("{:?}", e));
+          true
+        }
+      },
+      (Form::NkDrStream, Driver::NkDrStream(s)) => match guarded(sh, nth, "no_key DataReaderStream::poll_next()", || s.poll_next_unpin(&mut cx)) {
+        Poll::Ready(Some(Ok(ds))) => {
+          out.items.push(nk_item(nk_info(ds.sample_info()), ds.value()));
+          true
+        }
+        Poll::Ready(Some(Err(e))) => {
+          out.errs.push(format!("{:?}", e));
+          true
+        }
+        Poll::Ready(None) => {
+          out.errs.push("stream ended".to_string());
+          false
+        }
+        Poll::Pending => false,
+      },
+      (Form::NkBareStream, Driver::NkBareStream(s)) => match guarded(sh, nth, "no_key BareDataReaderStream::poll_next()", || s.poll_next_unpin(&mut cx)) {
+        Poll::Ready(Some(Ok(d))) => {
+          out.items.push(nk_item(None, &d));
+          true
+        }
+        Poll::Ready(Some(Err(e))) => {
+          out.errs.push(format!("{:?}", e));
+          true
+        }
+        Poll::Ready(None) => {
+          out.errs.push("stream ended".to_string());
+          false
+        }
+        Poll::Pending => false,
+      },
       _ => unreachable!(),
     }
   }
 
   fn run_case(env: &mut Env, case: &Case, sh: &Shared) -> Outcome {
-    let (tc, dr, _peers) = env.make_reader(case.reliable);
-    let mut drv = match case.form {
-      Form::DrStream => Driver::DrStream(dr.async_sample_stream()),
-      Form::BareStream => Driver::BareStream(dr.async_bare_sample_stream()),
-      _ => Driver::Dr(dr),
+    let (tc, mut drv, _peers) = if case.form.no_key() {
+      let (tc, keyed, peers) = env.make_nk_simple(case.reliable);
+      let drv = match case.form {
+        Form::NkSimpleTakeOne | Form::NkSimpleStream => Driver::NkSimple(nk::SimpleDataReader::from_keyed(keyed)),
+        f => {
+          let dr = nk::DataReader::from_keyed(DataReader::from_simple_data_reader(keyed));
+          match f {
+            Form::NkDrStream => Driver::NkDrStream(dr.async_sample_stream()),
+            Form::NkBareStream => Driver::NkBareStream(dr.async_bare_sample_stream()),
+            _ => Driver::NkDr(dr),
+          }
+        }
+      };
+      (tc, drv, peers)
+    } else {
+      let (tc, dr, peers) = env.make_reader(case.reliable);
+      let drv = match case.form {
+        Form::DrStream => Driver::DrStream(dr.async_sample_stream()),
+        Form::BareStream => Driver::BareStream(dr.async_bare_sample_stream()),
+        _ => Driver::Dr(dr),
+      };
+      (tc, drv, peers)
     };
     let mut out = Outcome::default();
     let n = case.changes.len();
@@ -511,20 +712,29 @@ mod verif_xc_take_path {
     if let Some(what) = &out.not_quiescent {
       panic!("XC-WITNESS label=take.once.returned {}: {}", d, what);
     }
-    let with_info = !matches!(case.form, Form::IntoIter | Form::Iter | Form::BareStream);
+    let with_info = case.form.with_info();
+    let no_key = case.form.no_key();
     let idf = |c: &Ch| if with_info { Some((c.w, c.sn)) } else { None };
     let mut want: Vec<Item> = case
       .changes
       .iter()
       .filter_map(|c| match c.kind {
         Value => Some(Item::Value { id: idf(c), a: KEY, b: label(c) }),
-        DisposeKey => Some(Item::Dispose { id: idf(c), key: KEY }),
+        DisposeKey if !no_key => Some(Item::Dispose { id: idf(c), key: KEY }),
         _ => None,
       })
       .collect();
     let mut got = out.items.clone();
     want.sort();
     got.sort();
+    // "nothing more" although deliverable values are left (nothing wrong with what was delivered)
+    if got.len() < want.len() && got.iter().all(|g| want.contains(g)) && got.windows(2).all(|p| p[0] != p[1]) {
+      let left: Vec<&Item> = want.iter().filter(|x| !got.contains(x)).collect();
+      panic!(
+        "XC-WITNESS label=take.once.none {}: after {} calls the form answered 'nothing available' (None / empty / Pending) although {:?} is still deliverable behind the read pointers; delivered so far {:?}, errors reported {}",
+        d, out.calls, left, out.items, out.errs.len()
+      );
+    }
     assert!(
       got == want,
       "XC-WITNESS label=take.once.returned {}: delivered over {} calls {:?}; every value / decodable dispose exactly once would be {:?} (errors reported: {})",
@@ -671,6 +881,59 @@ mod verif_xc_take_path {
   fn xc_take_upto3_best_effort_simple_and_streams() {
     run_all("b3a", cases_upto3(false, &ALL_FORMS[5..]), 10_000);
   }
+  const SIX: [Kind; 6] = [Value, Undecodable, UnknownRep, DisposeUnseenHash, DisposeKey, UnregisterUnitHash];
+
+  fn cases_nokey(form: Form) -> Vec<Case> {
+    let mut v = vec![];
+    for n in 1..=3 {
+      for changes in caches(n, &SIX) {
+        for reliable in [true, false] {
+          for first_portion in (1..=n).rev() {
+            v.push(Case { reliable, form, changes: changes.clone(), first_portion });
+          }
+        }
+      }
+    }
+    v
+  }
+
+  #[test]
+  fn xc_take_nokey_simple_try_take_one() {
+    run_all("nk1", cases_nokey(Form::NkSimpleTakeOne), 30_000);
+  }
+  #[test]
+  fn xc_take_nokey_simple_stream() {
+    run_all("nk2", cases_nokey(Form::NkSimpleStream), 30_000);
+  }
+  #[test]
+  fn xc_take_nokey_take() {
+    run_all("nk3", cases_nokey(Form::NkTake), 30_000);
+  }
+  #[test]
+  fn xc_take_nokey_take_next_sample() {
+    run_all("nk4", cases_nokey(Form::NkTakeNext), 30_000);
+  }
+  #[test]
+  fn xc_take_nokey_read_next_sample() {
+    run_all("nk5", cases_nokey(Form::NkReadNext), 30_000);
+  }
+  #[test]
+  fn xc_take_nokey_iterator() {
+    run_all("nk6", cases_nokey(Form::NkIter), 30_000);
+  }
+  #[test]
+  fn xc_take_nokey_into_iterator() {
+    run_all("nk7", cases_nokey(Form::NkIntoIter), 30_000);
+  }
+  #[test]
+  fn xc_take_nokey_sample_stream() {
+    run_all("nk8", cases_nokey(Form::NkDrStream), 30_000);
+  }
+  #[test]
+  fn xc_take_nokey_bare_sample_stream() {
+    run_all("nk9", cases_nokey(Form::NkBareStream), 30_000);
+  }
+
   #[test]
   fn xc_take_4_reliable() {
     run_all("r4", cases_4(true), 10_000);
